@@ -95,11 +95,9 @@ theorem validateDataType_of_valid (m : Metadata) : (dt : DataType) → validType
     simp only [validType, Bool.and_eq_true] at h
     obtain ⟨⟨hs, h2⟩, h3⟩ := h
     match e, h2, h3 with
-    | .mk _ (.struct (.cons kf (.cons vf .nil))) _ _, _, h3 =>
-      simp only [validField, validType, Bool.and_eq_true, validFields] at h3
-      have hk := validateField_of_valid kf h3.2.1
-      have hv := validateField_of_valid vf h3.2.2.1
-      simp [validateDataType, noStrategy_ok hs, bind, Except.bind, hk, hv]
+    | .mk en (.struct (.cons kf (.cons vf .nil))) enl em, _, h3 =>
+      have he := validateField_of_valid (.mk en (.struct (.cons kf (.cons vf .nil))) enl em) h3
+      simp [validateDataType, noStrategy_ok hs, bind, Except.bind, he]
   | .dictionary k v, h => by
     simp only [validType, Bool.and_eq_true] at h
     simp [validateDataType, noStrategy_ok h.1.1, h.1.2, h.2, bind, Except.bind]; rfl
